@@ -69,6 +69,9 @@ func (t TriState) String() string {
 type deviationPresence struct {
 	hasMinElements bool
 	hasMaxElements bool
+	// hasUnits tells a units statement with an empty argument from no
+	// units statement.
+	hasUnits bool
 }
 
 // Entry represents a single schema tree node, which can be a directory
@@ -1032,6 +1035,7 @@ func ToEntry(n Node) (e *Entry) {
 			}
 			if v != nil {
 				e.Units = v.asString()
+				e.deviatePresence.hasUnits = true
 			}
 		// TODO(borman): unimplemented keywords
 		case "belongs-to",
@@ -1219,7 +1223,7 @@ func (e *Entry) ApplyDeviate(deviateOpts ...DeviateOpt) []error {
 						deviatedNode.ListAttr.MaxElements = devSpec.ListAttr.MaxElements
 					}
 
-					if devSpec.Units != "" {
+					if devSpec.deviatePresence.hasUnits || devSpec.Units != "" {
 						deviatedNode.Units = devSpec.Units
 					}
 
